@@ -22,7 +22,9 @@ import (
 // process, which must return (not block on a leaked BoltDB lock) and - once
 // the damage is undone - succeed with the original contents.
 
-func init() { streams["openfail"] = &stream{gen: genOpenFail, exec: execOpenFail} }
+func init() {
+	streams["openfail"] = &stream{gen: genOpenFail, exec: inChild("openfail", "C11", execOpenFail)}
+}
 
 func genOpenFail(c *ctx, emit func(string)) {
 	r := rand.New(rand.NewSource(c.seed))
@@ -217,7 +219,9 @@ func execOpenFail(c *ctx, line string) (obs string) {
 // partial / complete wal-meta.db.tmp, the renamed wal-meta.db (with or without
 // a left-over tmp), each optionally followed by further crashed first Opens --
 // must all open, accept an append, and present it after a clean reopen.
-func init() { streams["initcrash"] = &stream{gen: genInitCrash, exec: execInitCrash} }
+func init() {
+	streams["initcrash"] = &stream{gen: genInitCrash, exec: inChild("initcrash", "C03", execInitCrash)}
+}
 
 func genInitCrash(c *ctx, emit func(string)) {
 	r := rand.New(rand.NewSource(c.seed))
